@@ -23,6 +23,9 @@ Dev_F6 == Last.tag = "null" /\ Last.dead
 C19_RouterFollowsTag ==
   Last.e = "route" => (RouteOK(Last) \/ ("F6" \in Known /\ Dev_F6 /\ NoteFinding("F6")))
 C19_SenderResolves == Last.e = "send" => SendOK(Last)
+\* C18: the poll transport delivers notifications only to the exact id; it can do so only if the sender
+\* tells it that a message is a notification
+C18_TransportToldTheKind == (Last.e = "send" /\ Last.handed /\ ~ Last.dead) => Last.msgType = Last.kind
 \* C20: what is dispatched names exactly the task / carries exactly the promise that was supplied, also
 \* when the transport sends it after the sender has gone on with the next message
 C20_DispatchedAsSupplied ==
